@@ -42,8 +42,13 @@ def build_harness(fams):
     cmd = ["cargo", "build", "--release", "--offline", "--quiet"]
     for f in fams:
         cmd += ["--bin", f]
-    p = subprocess.run(cmd, cwd=HARNESS,
-                       stdout=subprocess.PIPE, stderr=subprocess.STDOUT, text=True, env=env)
+    for attempt in (1, 2):
+        p = subprocess.run(cmd, cwd=HARNESS,
+                           stdout=subprocess.PIPE, stderr=subprocess.STDOUT, text=True, env=env)
+        if p.returncode == 0 or attempt == 2:
+            break
+        # a build killed by memory pressure or a stale lock is retried once; a tree that does not compile fails twice
+        time.sleep(5)
     if p.returncode != 0:
         sys.stdout.write(p.stdout[-6000:])
         raise ToolError("harness build failed (does /repo still compile?)")
